@@ -35,6 +35,9 @@ def run(ctx):
     configs = ["default"] if ctx.tier == "quick" else ["default", "full", "single:console_appender"]
     for cfg in configs:
         run_cfg(ctx, ctx.prog(cfg), cfg)
+    if ctx.tier == "thorough":
+        from rules import witness
+        witness.run_witnesses(ctx, "C15")
 
 
 def run_cfg(ctx, p, cfg):
